@@ -583,6 +583,13 @@ class Executor:
             if q:
                 selfty, trait, meth = q
                 cands = self.p.traitimpl.get((_base(selfty.lstrip("&").strip()), _base(trait), meth), [])
+                if len(cands) > 1:
+                    # several impls of the same trait for the same base type: compare generic arguments with module
+                    # paths stripped (`std::convert::From<std::time::SystemTime>` ~ `From<SystemTime>`)
+                    norm = lambda x: re.sub(r"\s+", "", re.sub(r"(\w+::)+", "", x or ""))
+                    c2 = [c for c in cands if norm(c[2]) == norm(trait)]
+                    c3 = [c for c in c2 if norm(c[1]) == norm(selfty)] or c2
+                    cands = c3 or cands
                 if len(cands) == 1:
                     nm = cands[0][0].name + "::" + mq.group(2)
                     if nm in self.p.consts:
